@@ -234,4 +234,163 @@ theorem extend_tie (dr : Bool) (empty c : Cols) (es : List Cols) (fuel : Nat) :
   refine Eq.trans (show _ = outOf (forList (extBody dr empty es fuel) es { self := c }) from rfl) (h.trans ?_)
   rw [extend_shape es c]
 
+/-! ## `retain` / `retain_mut` (callbacks that do not write): the swap loop, then one `truncate` -/
+
+/-- the loop body `if !f(slice.GET(i).unwrap()) { del += 1 } else if del > 0 { slice.swap(i - del, i) }` -/
+def retainBody (g : String) : List St :=
+  [(.ite (.not (.app 0 [(.mcall (.mcall (.var "slice") g [(.var "i")]) "unwrap" [])])) [(.opAssign "+=" "del" (.num 1))]
+      [(.ite (.bin ">" (.var "del") (.num 0))
+        [(.expr (.mcall (.var "slice") "swap" [(.bin "-" (.var "i") (.var "del")), (.var "i")]))] [])])]
+
+def retainStmts (g : String) : List St :=
+  [(.let_ "len" (.mcall .self_ "len" [])),
+   (.let_ "del" (.num 0)),
+   (.block [(.let_ "slice" (.mcall .self_ "as_mut_slice" [])), (.forIn "i" (.range (.num 0) (.var "len")) (retainBody g))]),
+   (.ite (.bin ">" (.var "del") (.num 0)) [(.expr (.mcall .self_ "truncate" [(.bin "-" (.var "len") (.var "del"))]))] [])]
+
+theorem retain_stmts : lp_PVec_retain.stmts = retainStmts "get" ∧ lp_PVec_retain_mut.stmts = retainStmts "get_mut" ∧
+    lp_PVec_retain.tail = none ∧ lp_PVec_retain_mut.tail = none := ⟨rfl, rfl, rfl, rfl⟩
+
+section retain
+variable (dr : Bool) (empty : Cols) (keep : Nat → Bool) (boom : Option Nat) (g : String) (n : Nat)
+
+def retEnv (fuel : Nat) : Env :=
+  { dr := dr, ps := [], keep := keep, boom := boom, touch := fun _ _ => none, M := modelMethods dr empty, fuel := fuel }
+
+def baseLocals (del : Nat) : List (String × V) := [("slice", .view), ("del", .nat del), ("len", .nat n)]
+
+def retIter (fuel : Nat) : Nat → Mach → Res Unit := fun i m =>
+  (execList (retEnv dr empty keep boom fuel) (retainBody g) { m with locals := ("i", .nat i) :: m.locals }).bind fun _ m =>
+    .ok () { m with locals := m.locals.drop 1 }
+
+/-- what the interpreter's loop must look like, given the model loop's result -/
+def LoopRes (r : Model.LoopOut) (res : Res Unit) : Prop :=
+  if r.boom then ∃ m', res = .panic m' ∧ m'.self = r.c ∧ m'.vis = r.vis ∧ m'.ev = r.ev ∧ m'.made = r.made ∧ m'.movedPs = []
+  else ∃ m', res = .ok () m' ∧ m'.self = r.c ∧ m'.locals = baseLocals n r.del ∧ m'.vis = r.vis ∧ m'.ev = r.ev ∧
+    m'.made = r.made ∧ m'.movedPs = []
+
+theorem retain_loop (hg : g = "get" ∨ g = "get_mut") (F : Nat) :
+    ∀ (fuel i del : Nat) (c : Cols) (m : Mach), c.lock n → i + fuel = n → del ≤ i → m.self = c →
+      m.locals = baseLocals n del → m.calls = i → m.movedPs = [] →
+      LoopRes n (Model.retainLoop keep boom (fun _ _ => none) fuel i del c m.vis m.ev m.made)
+        (forRange (retIter dr empty keep boom g F) i fuel m)
+  | 0, i, del, c, m, hc, hi, hd, hm, hl, hcalls, hmv => by
+    simp only [Model.retainLoop, forRange, LoopRes, Bool.false_eq_true, ↓reduceIte]
+    exact ⟨m, rfl, hm, hl, rfl, rfl, rfl, hmv⟩
+  | fuel + 1, i, del, c, m, hc, hi, hd, hm, hl, hcalls, hmv => by
+    have hin : i < n := by omega
+    have hfl := firstLen_lock c n hc
+    have hget : (if i < c.firstLen then some i else none) = some i := by simp [hfl, hin]
+    simp only [Model.retainLoop, forRange]
+    -- the part of the body up to the answer of the callback
+    by_cases hb : boom = some i
+    · simp only [hb, ↓reduceIte, LoopRes]
+      rcases hg with rfl | rfl <;>
+      · simp [retIter, retEnv, retainBody, execList, exec, eval, evalList, lookup, hl, baseLocals, callOther, modelMethods, hm,
+          hget, callClosure, hcalls, hb, hmv]
+    · have hb' : ¬ boom = some m.calls := by rw [hcalls]; exact hb
+      by_cases hk : keep i
+      · by_cases hdz : del > 0
+        · -- kept, and something was deleted before: swap into place
+          cases perField0 (swapOp (i - del) i) c n hc with
+          | ok s hrun _ hpn hst _ hlk _ hsm _ =>
+            rw [rows_noArgs c n hc] at hrun
+            have hlen := rows_len n c hc
+            have hlt : i - del < n := by omega
+            simp only [swapOp, PolyOp.ofTotal_run, hlen, hlt, hin, decide_true, List.length_nil, BEq.rfl,
+              Bool.and_self, ↓reduceIte, Option.some.injEq] at hrun
+            subst hrun
+            simp only at hst
+            have hlk' := lock_of_rows_len hlk (k := n) (by rw [hst]; simp [hlen])
+            have ih := retain_loop hg F fuel (i + 1) del (c.apply2 (swapOp (i - del) i) (Model.noArgs c)).st
+              { m with self := (c.apply2 (swapOp (i - del) i) (Model.noArgs c)).st, vis := m.vis ++ [Model.rowAt c i],
+                       calls := i + 1 } hlk' (by omega) (by omega) rfl hl rfl hmv
+            simp only [hb, hk, hdz, ↓reduceIte, Bool.not_true, Bool.false_eq_true]
+            have hsub : del ≤ i := hd
+            rcases hg with rfl | rfl <;>
+            · simp [retIter, retEnv, retainBody, execList, exec, eval, evalList, lookup, hl, baseLocals, callOther, modelMethods,
+                hm, hget, callClosure, hcalls, hb, hk, hdz, arith, hsub, afterSelf, hpn, dropV, Model.noArgs] at ih ⊢
+              exact ih
+          | fail _ hfail _ _ _ =>
+            have hlt : i - del < n := by omega
+            simp [swapOp, hlt, hin] at hfail
+        · have ih := retain_loop hg F fuel (i + 1) del c
+            { m with vis := m.vis ++ [Model.rowAt c i], calls := i + 1 } hc (by omega) (by omega) hm hl rfl hmv
+          simp only [hb, hk, hdz, ↓reduceIte, Bool.not_true, Bool.false_eq_true]
+          rcases hg with rfl | rfl <;>
+          · simp [retIter, retEnv, retainBody, execList, exec, eval, evalList, lookup, hl, baseLocals, callOther, modelMethods,
+              hm, hget, callClosure, hcalls, hb, hk, hdz, arith] at ih ⊢
+            exact ih
+      · have ih := retain_loop hg F fuel (i + 1) (del + 1) c
+          { m with vis := m.vis ++ [Model.rowAt c i], calls := i + 1, locals := baseLocals n (del + 1) } hc (by omega) (by omega)
+          hm rfl rfl hmv
+        simp only [hb, hk, ↓reduceIte, Bool.not_false]
+        rcases hg with rfl | rfl <;>
+        · simp [retIter, retEnv, retainBody, execList, exec, eval, evalList, lookup, hl, baseLocals, callOther, modelMethods,
+            hm, hget, callClosure, hcalls, hb, hk, arith, setLocal] at ih ⊢
+          exact ih
+
+end retain
+
+theorem retainLoop_del_le (keep : Nat → Bool) (boom : Option Nat) :
+    ∀ (fuel i del : Nat) (c : Cols) (vis : List (List Nat)) (ev : Ev) (made : List Nat), del ≤ i →
+      (Model.retainLoop keep boom (fun _ _ => none) fuel i del c vis ev made).del ≤ i + fuel
+  | 0, i, del, c, vis, ev, made, h => by simp [Model.retainLoop]; omega
+  | fuel + 1, i, del, c, vis, ev, made, h => by
+    simp only [Model.retainLoop]
+    split
+    · simp; omega
+    · split
+      · have := retainLoop_del_le keep boom fuel (i + 1) (del + 1) c (vis ++ [Model.rowAt c i]) ev made (by omega); omega
+      · split
+        · have := retainLoop_del_le keep boom fuel (i + 1) del (c.apply2 (swapOp (i - del) i) (Model.noArgs c)).st
+            (vis ++ [Model.rowAt c i]) ev made (by omega); omega
+        · have := retainLoop_del_le keep boom fuel (i + 1) del c (vis ++ [Model.rowAt c i]) ev made (by omega); omega
+
+/-- **`retain`** and **`retain_mut`** (callback without writes) as extracted = `Model.retain` -/
+theorem retain_tie (dr : Bool) (empty c : Cols) (keep : Nat → Bool) (boom : Option Nat) (n fuel : Nat) (hc : c.lock n) :
+    run { dr := dr, ps := [], keep := keep, boom := boom, touch := fun _ _ => none, M := modelMethods dr empty, fuel := fuel }
+      lp_PVec_retain c = some (Model.retain dr c keep boom (fun _ _ => none)) ∧
+    run { dr := dr, ps := [], keep := keep, boom := boom, touch := fun _ _ => none, M := modelMethods dr empty, fuel := fuel }
+      lp_PVec_retain_mut c = some (Model.retain dr c keep boom (fun _ _ => none)) := by
+  have hfl := firstLen_lock c n hc
+  have key : ∀ g, g = "get" ∨ g = "get_mut" →
+      outOf (execList (retEnv dr empty keep boom fuel) (retainStmts g) { self := c }) =
+        some (Model.retain dr c keep boom (fun _ _ => none)) := by
+    intro g hg
+    have hloop := retain_loop dr empty keep boom g n hg fuel n 0 0 c
+      { self := c, locals := baseLocals n 0 } hc (by omega) (by omega) rfl rfl rfl rfl
+    have hdel := retainLoop_del_le keep boom n 0 0 c [] {} [] (by omega)
+    have hM : (retEnv dr empty keep boom fuel).M = modelMethods dr empty := rfl
+    have hlen : (modelMethods dr empty).len = Cols.firstLen := rfl
+    have htr : (modelMethods dr empty).truncate = Model.truncate dr := rfl
+    simp only [retainStmts, execList, exec, eval, evalList, callSelf, hM, hlen, htr, Res.bind_ok, lookup,
+      String.reduceEq, ↓reduceIte, List.length_cons, List.length_nil, hfl, Nat.sub_zero]
+    simp only [Model.retain, hfl]
+    generalize Model.retainLoop keep boom (fun _ _ => none) n 0 0 c [] {} [] = r at hloop hdel ⊢
+    unfold LoopRes at hloop
+    simp only [baseLocals] at hloop
+    unfold retIter at hloop
+    by_cases hb : r.boom = true
+    · rw [if_pos hb] at hloop
+      obtain ⟨m', hres, h1, h2, h3, h4, h5⟩ := hloop
+      rw [hres]
+      simp [hb, outOf, h1, h2, h3, h4]
+    · rw [if_neg hb] at hloop
+      obtain ⟨m', hres, h1, hl, h2, h3, h4, h5⟩ := hloop
+      have hb' : r.boom = false := by simpa using hb
+      rw [hres]
+      by_cases hd : r.del > 0
+      · obtain ⟨tst, tpan, tev, hs⟩ : ∃ a b e, Model.truncate dr r.c (n - r.del) = { st := a, panicked := b, ev := e } :=
+          ⟨_, _, _, truncate_shape dr r.c (n - r.del)⟩
+        have hle : r.del ≤ n := by omega
+        simp [hb', hl, lookup, arith, hd, hle, eval, evalList, callSelf, afterSelf, h1, execList, exec, dropV, hM, htr, hs]
+        cases tpan <;> simp [outOf, h2, h3, h4]
+      · simp [hb', hl, lookup, arith, hd, eval, evalList, execList, exec, outOf, h1, h2, h3, h4]
+  constructor
+  · rw [run_unit _ _ _ retain_stmts.2.2.1 (by intro m; simp [leftovers, leftovers.go]), retain_stmts.1]
+    exact key "get" (Or.inl rfl)
+  · rw [run_unit _ _ _ retain_stmts.2.2.2 (by intro m; simp [leftovers, leftovers.go]), retain_stmts.2.1]
+    exact key "get_mut" (Or.inr rfl)
+
 end Soa.Lp
